@@ -51,6 +51,11 @@ def tasks(tier):
          "witnesses": ["second-call"]},
         {"name": "alias:params_initial:returned", "fn": "t_alias_params", "args": {"how": "returned"},
          "witnesses": ["second-call"]},
+        {"name": "alias:params_initial:vary-edit", "fn": "t_alias_params", "args": {"how": "passed", "edit": "vary"},
+         "witnesses": ["second-call"]},
+        {"name": "alias:params_initial:bound-edit", "fn": "t_alias_params", "args": {"how": "passed", "edit": "bound"},
+         "witnesses": ["second-call"]},
+        {"name": "alias:rating:names", "fn": "t_alias_names", "args": {}, "witnesses": ["second-call"]},
         {"name": "alias:preproc:options", "fn": "t_alias_preproc", "args": {"what": "options"},
          "witnesses": ["second-call"]},
         {"name": "alias:preproc:steps", "fn": "t_alias_preproc", "args": {"what": "steps"},
@@ -231,7 +236,7 @@ def _visible_eq(a, b):
     return all_of(conds)
 
 
-def t_alias_params(how):
+def t_alias_params(how, edit="value"):
     """fit(P); edit P in place; fit(P)  vs  twin: fit(copy0); fit(copy of edited P)."""
     global LAST_WORLD
     w, idnt, x, y, seg, P, init = fc.setup("4+2", "hertz_cone", ["E"])
@@ -260,7 +265,12 @@ def t_alias_params(how):
     P0 = copy.deepcopy(P1)
     idnt.fit_model(params_initial=P1, **kw)
     n1 = len(symlmfit.CALLS)
-    P1["E"].value = newE
+    if edit == "value":
+        P1["E"].value = newE
+    elif edit == "vary":
+        P1["baseline"].vary = True        # same values, another parameter varied
+    else:
+        P1["E"].set(max=newE + init["E"] + 1)   # same values, another bound
     idnt.fit_model(params_initial=P1, **kw)
     n2 = len(symlmfit.CALLS)
     witness("second-call")
@@ -273,9 +283,40 @@ def t_alias_params(how):
     prove("edit-noticed:same-optimiser-runs-as-fresh-copy", (n2 - n1) == (m2 - m1),
           info={"runs_same_object": n2 - n1, "runs_fresh_copy": m2 - m1})
     prove("edit-noticed:visible-state-equals-fresh-copy", _visible_eq(_visible(idnt), _visible(idnt2)))
-    prove("stored-initial-parameters-hold-the-new-value",
-          same(idnt.fit_properties["params_initial"]["E"].value, newE))
+    # a changed value / vary flag / bound is a changed setting: results are recomputed
+    prove("edit-noticed:one-new-optimisation", (n2 - n1) == 1, info={"runs": n2 - n1})
+    if edit == "value":
+        prove("stored-initial-parameters-hold-the-new-value",
+              same(idnt.fit_properties["params_initial"]["E"].value, newE))
+    else:
+        prove("stored-initial-parameters-hold-the-edited-attributes",
+              _pstate_eq(_pstate(idnt.fit_properties["params_initial"]), _pstate(P1)))
     return {"how": how, "runs_same_object": n2 - n1, "runs_fresh_copy": m2 - m1}
+
+
+def t_alias_names():
+    """rate_quality(names=L); edit L in place; rate_quality(names=L): the
+    edit must be noticed like a fresh equal-valued list."""
+    global LAST_WORLD
+    from harness import c09
+    w, idnt, fvals, made, pred, names_all, get_rater = c09._setup("fitted")
+    LAST_WORLD = w
+    check_assumptions()
+    L = ["feat_con_apr_sum", "feat_bin_size"]
+    idnt.rate_quality(names=L)
+    n1 = len(made)
+    L.append("feat_con_idt_sum")
+    idnt.rate_quality(names=L)
+    n2 = len(made)
+    witness("second-call")
+    prove("edit-noticed:new-rater-built-for-the-edited-list", n2 == n1 + 1,
+          info={"raters built by the second call": n2 - n1})
+    prove("edit-noticed:rating-parameters-report-the-edited-list",
+          idnt.get_rating_parameters()["Feature names"] == ["feat_con_apr_sum", "feat_bin_size", "feat_con_idt_sum"])
+    L.clear()
+    prove("cache-not-aliased-to-the-caller-list",
+          idnt.get_rating_parameters()["Feature names"] == ["feat_con_apr_sum", "feat_bin_size", "feat_con_idt_sum"])
+    return {}
 
 
 class _FunctionalOptimiser:
@@ -374,8 +415,33 @@ def replay(task, ob, model):
     # replays use a clean synthetic curve where the model values are degenerate
     xs = [3e-6, 2e-6, 1e-6, -1e-6, 0.0, 2e-6]
     ys = [0.0, 0.0, 1e-10, 4e-9, 1e-9, 0.0]
+    if fn == "t_alias_names":
+        return common.REPLAY_HEAD + REPLAY_COMMON + '''
+import nanite.indent as nind
+x = np.linspace(2e-6, -1e-6, 700); f = np.concatenate([np.zeros(400) + 1e-12 * np.cos(np.arange(400)), np.linspace(0, 1, 300) ** 1.5 * 5e-9])
+idnt = nanite.Indentation(data={"height (measured)": x.copy(), "force": f.copy(), "time": np.arange(700.) / 700, "segment": np.zeros(700, dtype=np.uint8)},
+                          metadata={"path": "/sym/c.jpk-force", "enum": 0, "point count": 700, "imaging mode": "force-distance", "spring constant": 0.1})
+idnt.apply_preprocessing(["compute_tip_position", "correct_force_offset", "correct_tip_offset"]); idnt.fit_model(model_key="hertz_para")
+made = []
+_get = nind.get_rater
+def counting(**kw):
+    made.append(list(kw.get("names") or [])); return _get(**kw)
+nind.get_rater = counting
+L = ["feat_con_apr_sum", "feat_bin_size"]
+r1 = idnt.rate_quality(names=L); n1 = len(made)
+L.append("feat_con_idt_sum")
+r2 = idnt.rate_quality(names=L); n2 = len(made)
+print("raters built by the second call:", n2 - n1, "reported names:", idnt.get_rating_parameters()["Feature names"])
+if n2 != n1 + 1:
+    print("REPRODUCED: in-place edit of the names list is not noticed by rate_quality"); sys.exit(1)
+L.clear()
+if idnt.get_rating_parameters()["Feature names"] != ["feat_con_apr_sum", "feat_bin_size", "feat_con_idt_sum"]:
+    print("REPRODUCED: rating cache aliases the caller's list"); sys.exit(1)
+sys.exit(0)
+'''
     if fn == "t_alias_params":
         how = task["args"]["how"]
+        edit = task["args"].get("edit", "value")
         return common.REPLAY_HEAD + REPLAY_COMMON + f'''
 how = {how!r}
 kw = dict(model_key="hertz_cone", range_x=[0, 0], range_type="absolute", segment=0, weight_cp=0, gcf_k=1)
@@ -391,7 +457,10 @@ if how == "returned":
 else:
     P1 = P
 a.fit_model(params_initial=P1, **kw); n1 = runs[0]
-P1["E"].value = 7777.0
+edit = {edit!r}
+if edit == "value": P1["E"].value = 7777.0
+elif edit == "vary": P1["baseline"].vary = True
+else: P1["E"].set(max=9000.0)
 a.fit_model(params_initial=P1, **kw); n2 = runs[0]
 b.fit_model(params_initial=P0(), **kw); m1 = runs[0]
 b.fit_model(params_initial=copy.deepcopy(P1), **kw); m2 = runs[0]
@@ -400,6 +469,8 @@ ea = a.fit_properties["params_fitted"]["E"].value; eb = b.fit_properties["params
 print("fitted E:", ea, eb)
 if (n2 - n1) != (m2 - m1) or state(a.fit_properties["params_initial"]) != state(b.fit_properties["params_initial"]):
     print("REPRODUCED: in-place edit of a previously passed/returned params object is not noticed"); sys.exit(1)
+if (n2 - n1) != 1 or state(a.fit_properties["params_initial"]) != state(P1):
+    print("REPRODUCED: edited initial parameters (%s) were not taken over / not refitted: runs=%d" % (edit, n2 - n1)); sys.exit(1)
 sys.exit(0)
 '''
     if fn == "t_alias_preproc":
